@@ -47,7 +47,7 @@ def bfs(ctx, impl, fn, cfg, depth, label='', start=None, seen=None,
         per_level.append(len(nxt))
         ctx.log('%s %s depth %d: +%d states (total %d), %d transitions so far'
                 % (label, impl, d, len(nxt), len(seen), trans))
-        if ctx.viol and not ctx.opts.get('keep_going'):
+        if ctx.unknown_viol() and not ctx.opts.get('keep_going'):
             break
         if max_states and len(seen) > max_states:
             ctx.cap('%s: state cap %d reached at depth %d' % (label, max_states, d))
